@@ -1,56 +1,2 @@
-(* GENERATED by tools/gen/g_tostring.py from util/integer_to_string.hh/.cc, float_to_string.hh/.cc,
-   buffered_stream.hh, threaded_buffered_stream.hh -- do not edit *)
-From Coq Require Import List ZArith.
-Import ListNotations.
-Local Open Scope Z_scope.
-
-Definition kBytes_bool : Z := 1.
-Definition kBytes_u16 : Z := 5.
-Definition kBytes_i16 : Z := 6.
-Definition kBytes_u32 : Z := 10.
-Definition kBytes_i32 : Z := 11.
-Definition kBytes_u64 : Z := 20.
-Definition kBytes_i64 : Z := 20.
-(* sizeof(const void* ) = 8 on the x86-64 target that is built and tested *)
-Definition pointer_size : Z := 8.
-Definition kBytes_ptr : Z := pointer_size * 2 + 2.
-Definition kBytes_double : Z := 26.
-Definition kBytes_float : Z := 26.
-Definition kToStringMaxBytes : Z := 26.
-
-Definition gDigitsLut : list Z :=
-  [48; 48; 48; 49; 48; 50; 48; 51; 48; 52; 48; 53; 48; 54; 48; 55; 48; 56; 48; 57;
-   49; 48; 49; 49; 49; 50; 49; 51; 49; 52; 49; 53; 49; 54; 49; 55; 49; 56; 49; 57;
-   50; 48; 50; 49; 50; 50; 50; 51; 50; 52; 50; 53; 50; 54; 50; 55; 50; 56; 50; 57;
-   51; 48; 51; 49; 51; 50; 51; 51; 51; 52; 51; 53; 51; 54; 51; 55; 51; 56; 51; 57;
-   52; 48; 52; 49; 52; 50; 52; 51; 52; 52; 52; 53; 52; 54; 52; 55; 52; 56; 52; 57;
-   53; 48; 53; 49; 53; 50; 53; 51; 53; 52; 53; 53; 53; 54; 53; 55; 53; 56; 53; 57;
-   54; 48; 54; 49; 54; 50; 54; 51; 54; 52; 54; 53; 54; 54; 54; 55; 54; 56; 54; 57;
-   55; 48; 55; 49; 55; 50; 55; 51; 55; 52; 55; 53; 55; 54; 55; 55; 55; 56; 55; 57;
-   56; 48; 56; 49; 56; 50; 56; 51; 56; 52; 56; 53; 56; 54; 56; 55; 56; 56; 56; 57;
-   57; 48; 57; 49; 57; 50; 57; 51; 57; 52; 57; 53; 57; 54; 57; 55; 57; 56; 57; 57].
-Definition u32_small_limit : Z := 10000.
-Definition u32_mid_limit : Z := 100000000.
-Definition u64_low_limit : Z := 100000000.
-Definition u64_small_limit : Z := 10000.
-Definition u64_mid_limit : Z := 10000000000000000.
-(* bytes written by _mm_storel_epi64 / _mm_storeu_si128 *)
-Definition store_l64 : Z := 8.
-Definition store_u128 : Z := 16.
-Definition kDiv10000 : Z := 3518437209.
-Definition kDiv10000_shift : Z := 45.
-Definition kDivPowers : list Z := [8389; 5243; 13108; 32768].
-Definition kShiftPowers : list Z := [128; 2048; 8192; 32768].
-Definition kHexDigits : list Z := [48; 49; 50; 51; 52; 53; 54; 55; 56; 57; 97; 98; 99; 100; 101; 102].
-
-Definition infinity_symbol : list Z := [105; 110; 102].
-Definition nan_symbol : list Z := [78; 97; 78].
-Definition exponent_character : Z := 101.
-Definition decimal_in_shortest_low : Z := (-6).
-Definition decimal_in_shortest_high : Z := 21.
-Definition string_builder_terminator : Z := 1.
-Definition kBase10MaximalLength : Z := 17.
-
-Definition buffered_stream_min : Z := 8192.
-Definition block_queue_min : Z := 8192.
-Definition kBlocks : Z := 3.
+(* translator failed: uint32 formatter: expected exactly one 8-byte vector store, found ['u_si128'] *)
+Definition translator_failed : True := 0.
